@@ -56,13 +56,13 @@ def _eval_named(name):
 def main():
     mode = sys.argv[1]
     os.makedirs(SEEDED, exist_ok=True)
-    if mode in ("import", "import2", "import3", "import4", "import5"):
+    if mode in ("import", "import2", "import3", "import4", "import5", "import6"):
         for pid in sys.argv[2:]:
             for k in ("1", "2", "3"):
-                src = {"import": f"/tmp/seed/out_{pid}", "import2": f"/tmp/seed/out2_{pid}", "import3": f"/tmp/seed/out3_{pid}", "import4": f"/tmp/seed/out4_{pid}", "import5": f"/tmp/seed/out5_{pid}"}[mode]
+                src = {"import": f"/tmp/seed/out_{pid}", "import2": f"/tmp/seed/out2_{pid}", "import3": f"/tmp/seed/out3_{pid}", "import4": f"/tmp/seed/out4_{pid}", "import5": f"/tmp/seed/out5_{pid}", "import6": f"/tmp/seed/out6_{pid}"}[mode]
                 if not os.path.exists(f"{src}/patch{k}.diff"):
                     continue
-                d = f"{SEEDED}/{pid}-{int(k) + {"import": 0, "import2": 2, "import3": 4, "import4": 6, "import5": 8}[mode]}"
+                d = f"{SEEDED}/{pid}-{int(k) + {"import": 0, "import2": 2, "import3": 4, "import4": 6, "import5": 8, "import6": 10}[mode]}"
                 os.makedirs(d, exist_ok=True)
                 shutil.copy(f"{src}/patch{k}.diff", f"{d}/patch.diff")
                 shutil.copy(f"{src}/demo{k}.py", f"{d}/demo.py")
@@ -72,7 +72,7 @@ def main():
                     m = {}
                 meta = {"property": pid, "breaks": m.get("summary", ""), "needs_to_manifest": m.get("needs", ""), "author": "independent sub-agent given only the property text and a scratch worktree"}
                 json.dump(meta, open(f"{d}/meta.json", "w"), indent=1)
-    ks = {"import": ["1", "2", "3"], "import2": ["3", "4", "5"], "import3": ["5", "6", "7"], "import4": ["7", "8", "9"], "import5": ["9", "10", "11"]}.get(mode, [])
+    ks = {"import": ["1", "2", "3"], "import2": ["3", "4", "5"], "import3": ["5", "6", "7"], "import4": ["7", "8", "9"], "import5": ["9", "10", "11"], "import6": ["11", "12", "13"]}.get(mode, [])
     if mode == "only":
         only = sys.argv[2:]
         mode = "rerun"
